@@ -208,20 +208,6 @@ Theorem completed_reported_once :
     tstep s (GCompletedResponse rid SCancelled) orc = (s, []).
 Proof. intros s rid k orc L. unfold tstep. rewrite L. repeat split. Qed.
 
-(* per-channel stores are registered at UseStore and unregistered by cleanup *)
-Theorem store_registered_for_lifetime_only :
-  forall s k orc c,
-    (In (OGs (GRegisterStore k) true) (snd (tstep s (XUseStore k) orc))) /\
-    (tlookup k (ts_chans s) = Some c -> tc_store c = true ->
-       snd (tstep s (XCleanup k) orc) = [OGs (GUnregisterStore k) true]) /\
-    (tlookup k (ts_chans s) = Some c -> tc_store c = false -> snd (tstep s (XCleanup k) orc) = []).
-Proof.
-  intros s k orc c. unfold tstep. repeat split.
-  - cbn. left. reflexivity.
-  - intros L S. rewrite L, S. reflexivity.
-  - intros L S. rewrite L, S. reflexivity.
-Qed.
-
 (* ---------- C09: closing always returns ---------- *)
 (* every transport call of the model returns (there is no wait state); for close in particular,
    whatever the state of the request: never opened, open, already cancelled, cancelled by the remote *)
@@ -410,7 +396,7 @@ Proof.
     destruct (tlookup k0 (ts_chans s)) as [c|]; [|exact HI].
     intros k' H. cbn in *. apply maps_to_delete in H. destruct H as [H Hne].
     rewrite tlookup_tremove_other by exact Hne. apply HI. exact H.
-  - apply SC.
+  - destruct (tc_store (track k0 s)); apply SC.
   - (* GIncomingRequest *)
     destruct om as [m|]; [|exact HI].
     destruct (g_isreq m && is_cancel m); [exact HI|].
@@ -471,4 +457,61 @@ Proof.
   { revert E. unfold process_extension. destruct (g_isreq m); destruct (triple_eqb _ _); intros E; inversion E; auto. }
   destruct Hv as [->|Hu]; [|congruence].
   rewrite app_nil_r, !terminates_app, T. destruct resp; destruct (ha_ret a); cbn; try reflexivity; congruence.
+Qed.
+
+(* ---------- per-channel stores: registered once, for the channel's lifetime only ---------- *)
+Definition has_store (k : chid) (s : tstate) : bool :=
+  match tlookup k (ts_chans s) with Some c => tc_store c | None => false end.
+
+Lemma tlookup_tset_diff k k' c l : k' <> k -> tlookup k' (tset k c l) = tlookup k' l.
+Proof.
+  intros Hne. unfold tset. destruct (tlookup k l) eqn:L.
+  - clear L. induction l as [|[k0 c0] tl IH]; cbn; [reflexivity|].
+    destruct (triple_eqb k0 k) eqn:E; cbn.
+    + apply teq_eq in E. subst k0.
+      destruct (triple_eqb k k') eqn:E'; [apply teq_eq in E'; congruence|exact IH].
+    + destruct (triple_eqb k0 k'); [reflexivity|exact IH].
+  - clear L. induction l as [|[k0 c0] tl IH]; cbn.
+    + destruct (triple_eqb k k') eqn:E'; [apply teq_eq in E'; congruence|reflexivity].
+    + destruct (triple_eqb k0 k'); [reflexivity|exact IH].
+Qed.
+
+Lemma tlookup_tremove_same k l : tlookup k (tremove k l) = None.
+Proof.
+  induction l as [|[k0 c0] tl IH]; cbn; [reflexivity|].
+  destruct (triple_eqb k0 k) eqn:E; [exact IH|]. cbn. rewrite E. exact IH.
+Qed.
+
+Lemma has_store_set_same s k c : has_store k (set_chan s k c) = tc_store c.
+Proof. unfold has_store, set_chan. cbn. rewrite tlookup_tset_same. reflexivity. Qed.
+
+Lemma has_store_set_other s k k' c : k' <> k -> has_store k' (set_chan s k c) = has_store k' s.
+Proof. intros H. unfold has_store, set_chan. cbn. rewrite tlookup_tset_diff by exact H. reflexivity. Qed.
+
+Lemma has_store_track s k : tc_store (track k s) = has_store k s.
+Proof. unfold track, has_store. destruct (tlookup k (ts_chans s)); reflexivity. Qed.
+
+(* the first UseStore registers the store; a repeated one is refused by graphsync and changes
+   nothing (the store stays the channel's); cleanup unregisters exactly a registered store *)
+Theorem store_registered_for_lifetime_only :
+  forall s k orc,
+    (has_store k s = false ->
+       snd (tstep s (XUseStore k) orc) = [OGs (GRegisterStore k) true; ORet true] /\
+       has_store k (fst (tstep s (XUseStore k) orc)) = true) /\
+    (has_store k s = true ->
+       snd (tstep s (XUseStore k) orc) = [OGs (GRegisterStore k) false; ORet false] /\
+       has_store k (fst (tstep s (XUseStore k) orc)) = true) /\
+    (has_store k s = true ->
+       snd (tstep s (XCleanup k) orc) = [OGs (GUnregisterStore k) true] /\
+       has_store k (fst (tstep s (XCleanup k) orc)) = false) /\
+    (has_store k s = false -> snd (tstep s (XCleanup k) orc) = []).
+Proof.
+  intros s k orc. unfold tstep. rewrite has_store_track.
+  split; [|split; [|split]]; intros H.
+  - rewrite H. cbn [fst snd]. split; [reflexivity|]. rewrite has_store_set_same. reflexivity.
+  - rewrite H. cbn [fst snd]. split; [reflexivity|]. rewrite has_store_set_same, has_store_track. exact H.
+  - unfold has_store in H. destruct (tlookup k (ts_chans s)) as [c|] eqn:L; [|discriminate].
+    rewrite H. cbn [fst snd]. split; [reflexivity|]. unfold has_store. cbn. rewrite tlookup_tremove_same. reflexivity.
+  - unfold has_store in H. destruct (tlookup k (ts_chans s)) as [c|] eqn:L; [|reflexivity].
+    rewrite H. reflexivity.
 Qed.
